@@ -12,6 +12,7 @@ pub struct RegEq<'a> {
     pa: Vec<Option<u32>>,
     pb: Vec<Option<u32>>,
     visited: HashSet<(u32, u32)>,
+    at_root: bool,
     /// compare variant indices (wire-relevant) — always on
     pub steps: usize,
 }
@@ -30,6 +31,7 @@ pub fn reg_equiv(reg: &PortableRegistry, a: u32, b: u32) -> bool {
         pa: ta.type_params.iter().map(|p| p.ty.map(|t| t.id)).collect(),
         pb: tb.type_params.iter().map(|p| p.ty.map(|t| t.id)).collect(),
         visited: HashSet::new(),
+        at_root: true,
         steps: 0,
     };
     r.eq_root(a, b)
@@ -65,6 +67,31 @@ impl<'a> RegEq<'a> {
         if ta.path.segments != tb.path.segments {
             return false;
         }
+        // the recorded generic arguments of a nested type are part of the definition that
+        // mentions it (the emitted field type names them), even when they are not on the wire
+        if !self.at_root {
+            if ta.type_params.len() != tb.type_params.len() {
+                return false;
+            }
+            let pairs: Vec<(Option<u32>, Option<u32>)> = ta
+                .type_params
+                .iter()
+                .zip(tb.type_params.iter())
+                .map(|(x, y)| (x.ty.map(|t| t.id), y.ty.map(|t| t.id)))
+                .collect();
+            for (x, y) in pairs {
+                match (x, y) {
+                    (Some(x), Some(y)) => {
+                        if !self.eq(x, y) {
+                            return false;
+                        }
+                    }
+                    (None, None) => {}
+                    _ => return false,
+                }
+            }
+        }
+        self.at_root = false;
         match (&ta.type_def, &tb.type_def) {
             (TypeDef::Composite(x), TypeDef::Composite(y)) => self.fields(&x.fields, &y.fields),
             (TypeDef::Variant(x), TypeDef::Variant(y)) => {
